@@ -97,9 +97,40 @@ func c22LiveAllocs(b *model.AllocationBlock) []int {
 // with two confirmed affinities.
 const c22SigClaimDuringRelease = "c22-claim-confirms-while-release-strips-block-affinity"
 
+// knownClaimDuringRelease: the affinity "host|cidr" was rewritten pendingDeletion -> pending by an
+// operation that then took claimAffineBlock's "block already exists and is ours" branch (its
+// Create of the block failed with "exists"), i.e. confirmed without writing the block - the
+// mechanism of the open finding.  A re-confirmation through getBlockFromAffinity (which bumps the
+// block between the two affinity writes) is NOT covered.
+func (s *c22Scenario) knownClaimDuringRelease(key string) bool {
+	ops := s.overwrote[key]
+	if len(ops) == 0 {
+		return false
+	}
+	cidr := key[strings.Index(key, "|")+1:]
+	suffix := "/block/" + strings.Replace(cidr, "/", "-", 1)
+	for _, c := range s.r.sched.Trace() {
+		if c.Result != "exists" {
+			continue
+		}
+		p := strings.Split(c.ID, "|")
+		if len(p) != 5 || p[3] != "Create" || !strings.Contains(p[4], "/assignment/") || !strings.HasSuffix(p[4], suffix) {
+			continue
+		}
+		for _, id := range ops {
+			if id == p[0] {
+				return true
+			}
+		}
+	}
+	return false
+}
+
 type c22Scenario struct {
 	knownHit  bool
-	overwrote map[string]bool // "host|cidr": a claim rewrote this affinity from pendingDeletion to pending
+	// "host|cidr" -> operations that rewrote this affinity from pendingDeletion to pending
+	overwrote map[string][]string
+	stalled   map[*memds.Op]int // scheduling: operations held back for some steps
 	affWrites map[string][]c22AffWrite // "host|cidr": writes to the affinity record, in step order
 	// targeted scenario: a release of host H's affinity dies right after marking it pendingDeletion
 	pdCrashed   map[string]bool // "host|cidr"
@@ -138,7 +169,7 @@ func (s *c22Scenario) checkState() {
 		known := false
 		if ev.Known(c22SigClaimDuringRelease) {
 			for _, h := range hs {
-				if s.overwrote[h+"|"+c] {
+				if s.knownClaimDuringRelease(h + "|" + c) {
 					known = true
 				}
 			}
@@ -169,7 +200,9 @@ func (s *c22Scenario) checkWrites(evs []memds.WriteEvent) {
 			oa, _ := e.Old.(*model.BlockAffinity)
 			na, _ := e.New.(*model.BlockAffinity)
 			if oa != nil && na != nil && oa.State == model.StatePendingDeletion && na.State == model.StatePending {
-				s.overwrote[k.Host+"|"+k.CIDR.String()] = true
+				if o := s.r.byOp[e.Op]; o != nil {
+					s.overwrote[k.Host+"|"+k.CIDR.String()] = append(s.overwrote[k.Host+"|"+k.CIDR.String()], o.ID)
+				}
 				s.classes["claim-overwrote-pending-deletion"] = true
 			}
 		}
@@ -259,7 +292,7 @@ func (s *c22Scenario) checkClaimBacksAllocation(o *c19Op, cidr string) {
 	if s.pdCrashed[key] {
 		s.classes["assign-after-release-crashed-at-pendingDeletion"] = true
 	}
-	if ev.Known(c22SigClaimDuringRelease) && s.overwrote[key] {
+	if ev.Known(c22SigClaimDuringRelease) && s.knownClaimDuringRelease(key) {
 		s.knownHit = true
 		return
 	}
@@ -328,7 +361,7 @@ func c22Run(t *rapid.T, rec *ev.Recorder, opsPerClient int) {
 	// hot blocks: two v4 blocks and one v6 block
 	gen.blocks4 = c19BlockCIDRs(c19PoolV4, 30)[:2]
 	gen.blocks6 = c19BlockCIDRs(c19PoolV6, 126)[:1]
-	s := &c22Scenario{t: t, w: w, strict: strict, hosts: hosts, classes: map[string]bool{}, overwrote: map[string]bool{}, affWrites: map[string][]c22AffWrite{}, pdCrashed: map[string]bool{}}
+	s := &c22Scenario{t: t, w: w, strict: strict, hosts: hosts, classes: map[string]bool{}, overwrote: map[string][]string{}, stalled: map[*memds.Op]int{}, affWrites: map[string][]c22AffWrite{}, pdCrashed: map[string]bool{}}
 	fw := c19FaultWeights{Conflict: 30, Error: 5, CrashBefore: 5, CrashAfter: 5, MaxCrashes: 3}
 	s.r = c19NewRunner(t, w, fw)
 	gen.r = s.r
@@ -343,7 +376,16 @@ func c22Run(t *rapid.T, rec *ev.Recorder, opsPerClient int) {
 		if !ok || c.Method != "Update" || s.pdCrashes >= 2 {
 			return memds.FaultNone, false
 		}
-		if rapid.IntRange(0, 2).Draw(t, "crashAtPendingDeletion") != 0 {
+		switch rapid.IntRange(0, 3).Draw(t, "atPendingDeletion") {
+		case 0: // crash right after the mark (below)
+		case 1:
+			// the releaser is slow: hold it back for a while after its pendingDeletion mark and let
+			// the owner host AutoAssign meanwhile (re-confirmation racing with the rest of the release)
+			s.stalled[c.Op] = rapid.IntRange(4, 24).Draw(t, "stallSteps")
+			s.forceAssign = append(s.forceAssign, c22Forced{host: host, v6: strings.Contains(cidr, ":")})
+			s.classes["release-stalled-at-pendingDeletion"] = true
+			return memds.FaultNone, true
+		default:
 			return memds.FaultNone, false
 		}
 		s.pdCrashes++
@@ -351,6 +393,28 @@ func c22Run(t *rapid.T, rec *ev.Recorder, opsPerClient int) {
 		s.forceAssign = append(s.forceAssign, c22Forced{host: host, v6: strings.Contains(cidr, ":")})
 		s.classes["release-crashed-at-pendingDeletion"] = true
 		return memds.FaultCrashAfter, true
+	}
+	s.r.pickHook = func(calls []*memds.Call) int {
+		if len(s.stalled) == 0 {
+			return -1
+		}
+		var free []int
+		for i, c := range calls {
+			if s.stalled[c.Op] == 0 {
+				free = append(free, i)
+			}
+		}
+		for op, n := range s.stalled {
+			if n <= 1 {
+				delete(s.stalled, op)
+			} else {
+				s.stalled[op] = n - 1
+			}
+		}
+		if len(free) == 0 || len(free) == len(calls) {
+			return -1
+		}
+		return free[rapid.IntRange(0, len(free)-1).Draw(t, "pickUnstalled")]
 	}
 	s.r.onStep = func(evs []memds.WriteEvent) {
 		s.checkWrites(evs)
